@@ -57,6 +57,7 @@ type Knobs struct {
 	RowStride  int    `json:"row_stride"`   // park at every n-th row-level yield
 	Pool       string `json:"pool"`         // lifo | fresh | random | poison | real
 	PoolSeed   uint64 `json:"pool_seed"`
+	FreeRun    bool   `json:"free_run,omitempty"` // no controller: every yield returns at once (race detector pass)
 }
 
 type SchedSpec struct {
